@@ -72,7 +72,11 @@ func genC20(r *rand.Rand, run int, tier string) *vm.Plan {
 	var parent int
 	switch opk {
 	case "builder":
-		b.add(vm.Op{K: "build", A: key, Blk: &blk, Ent: ent, Out: b.slot()})
+		var rid *uint32
+		if (k+chunking)%2 == 0 { // the builder is also given a root key id in half of the cases
+			rid = u32p(uint32(k))
+		}
+		b.add(vm.Op{K: "build", A: key, Blk: &blk, Ent: ent, RootID: rid, Out: b.slot()})
 	case "new":
 		b.add(vm.Op{K: "build", Via: "new", A: key, Blk: &blk, Ent: ent, Out: b.slot()})
 	default:
